@@ -126,7 +126,7 @@ def check_state(acc, pendulum, z, inst):
         if not (x == a and a == x and hash(x) == hash(a)):
             acc.mismatch("eq-hash", "twin-zoneinfo", case, [x == a, a == x, hash(x) == hash(a)], [True, True, True])
     # result types
-    types = {"date()": (x.date(), pendulum.Date), "time()": (x.time(), pendulum.Time),
+    types = {"date()": (x.date(), pendulum.Date), "time()": (x.time(), pendulum.Time), "timetz()": (x.timetz(), pendulum.Time),
              "astimezone": (x.astimezone(dt_.timezone.utc) if z is not None else x, pendulum.DateTime),
              "replace": (x.replace(microsecond=5), pendulum.DateTime),
              "combine": (pendulum.DateTime.combine(x.date(), x.time()), pendulum.DateTime),
